@@ -54,9 +54,10 @@ fn c03_case(b: usize, l: usize, form: u8, stop_at: u32, warm: bool, maxd: u8) {
     setup_game(b, l);
     let mut f = Flounder::new();
     if warm {
-        // an earlier search in the same process: of a successor position or of the root itself
-        let from_child = sym::bool();
-        if from_child && has_moves_at(0, 0) { let m0 = mk_move(0, 0); u::board_mut(&mut f).make_move(&m0); }
+        // an earlier completed search in the same process, of a SUCCESSOR position (concrete move: a symbolic choice
+        // would make the tree level symbolic and the engine's recursion unbounded for the symbolic executor)
+        sym::assume(has_moves_at(0, 0));
+        let m0 = mk_move(0, 0); u::board_mut(&mut f).make_move(&m0);
         let wb = *u::board(&f);
         let (_s, _m) = u::searcher_mut(&mut f).find_best_move(&wb, 1, None);
         *u::board_mut(&mut f) = Board::root();
@@ -65,17 +66,19 @@ fn c03_case(b: usize, l: usize, form: u8, stop_at: u32, warm: bool, maxd: u8) {
     unsafe { CLK.stop_at = stop_at; }
     // one-digit numbers: the abstract clock ignores the amount (the deadline is the poll index), and a longer
     // number would force the global unwinding bound up to str::parse's digit loop
-    let n = crate::h_time::any_num_1digit();
+    // concrete amounts: the abstract clock ignores them (the deadline is the poll index; amounts are C12's subject),
+    // and a symbolic token makes `parse()` succeed only symbolically, which drags the unlimited depth-64 search of
+    // the parse-error path into every case
     if form == 0 {
         // the depth is concrete per harness (a symbolic choice of the token would be a symbolic string)
         let ds = if maxd == 1 { "1" } else if maxd == 2 { "2" } else { "3" };
         u::go(&mut f, &["go", "depth", ds]);
     } else if form == 1 {
-        u::go(&mut f, &["go", "movetime", n.s()]);
+        u::go(&mut f, &["go", "movetime", "0"]);
     } else {
-        u::go(&mut f, &["go", "wtime", n.s(), "btime", n.s()]);
+        u::go(&mut f, &["go", "wtime", "9", "btime", "9"]);   // below the reserve: a 0 ms budget
     }
-    vnote!("go", "form={} stop_at={} warm={} number={}", form, stop_at, warm, n.val);
+    vnote!("go", "form={} stop_at={} warm={}", form, stop_at, warm);
     check_one_bestmove();
     vcover!(has_moves_at(0, 0), "root has legal moves");
     vcover!(!has_moves_at(0, 0), "root has no legal move");
